@@ -9,6 +9,7 @@ import (
 
 	"github.com/mycoria/mycoria/frame"
 	"github.com/mycoria/mycoria/m"
+	"github.com/mycoria/mycoria/state"
 
 	"verifharness/core"
 	"verifharness/env"
@@ -157,6 +158,9 @@ type setup struct {
 	relay   bool
 	swapped bool
 	ids     []*m.Address
+	// prior: 0 = the routers never talked; 1/2 = they completed a setup and exchanged traffic before, then A/B
+	// lost its keys (restart with the same identity) - the other side re-keys its used session in place.
+	prior int
 }
 
 func buildWorld(r *rand.Rand, s setup, retries int) (*world, error) {
@@ -188,6 +192,30 @@ func buildWorld(r *rand.Rand, s setup, retries int) (*world, error) {
 	}
 	w := &world{ms: ms, a: a, b: b, dupped: map[string]bool{}, names: map[string]string{}}
 	w.retries = [2]int{retries, retries}
+	if s.prior > 0 {
+		if err := w.initiate(0); err != nil {
+			return nil, fmt.Errorf("prior setup: %w", err)
+		}
+		ms.Drain(vmesh.FIFO, 100)
+		if !w.setUp(0) || !w.setUp(1) {
+			return nil, fmt.Errorf("prior setup did not complete")
+		}
+		for i := 0; i < 6; i++ {
+			if e1, e2 := w.talk(0, 1), w.talk(1, 0); e1 != nil || e2 != nil {
+				return nil, fmt.Errorf("prior traffic failed: %v %v", e1, e2)
+			}
+		}
+		loser := s.prior - 1
+		if ls := w.node(loser).Inst.StateV.GetSession(w.peerOf(loser).ID.IP); ls != nil {
+			ls.SetEncryptionSession(state.NewEncryptionSession())
+		}
+		for sd := 0; sd < 2; sd++ {
+			w.node(sd).Inst.RouterV.HelloPing.VerifExpireHello(w.peerOf(sd).ID.IP)
+		}
+		w.nReq = [2]int{}
+		w.names = map[string]string{}
+		w.trace = nil
+	}
 	return w, nil
 }
 
@@ -195,8 +223,11 @@ func buildWorld(r *rand.Rand, s setup, retries int) (*world, error) {
 func (w *world) verdict() (sig, msg string) {
 	aUp, bUp := w.setUp(0), w.setUp(1)
 	if aUp && bUp {
-		e1 := w.talk(0, 1)
-		e2 := w.talk(1, 0)
+		var e1, e2 error
+		for i := 0; i < 3 && e1 == nil && e2 == nil; i++ {
+			e1 = w.talk(0, 1)
+			e2 = w.talk(1, 0)
+		}
 		if e1 != nil || e2 != nil {
 			return "silent-key-mismatch", fmt.Sprintf("both routers consider encryption established, but traffic A->B: %v, B->A: %v", e1, e2)
 		}
@@ -237,8 +268,14 @@ func runSchedule(res *core.Result, r *rand.Rand, s setup, initSet int, retries i
 		return nil, false
 	}
 	desc := fmt.Sprintf("relay=%v swapped=%v initiators=%v retries=%d", s.relay, s.swapped, initiatorSets[initSet], retries)
+	if s.prior > 0 {
+		desc += fmt.Sprintf(" prior-setup-and-traffic-then-%s-lost-its-keys", sideName(s.prior-1))
+	}
 	for _, side := range initiatorSets[initSet] {
 		if err := w.initiate(side); err != nil {
+			if s.prior > 0 && side != s.prior-1 {
+				continue // the side that still has keys may refuse to start another setup
+			}
 			res.Inconcl("initiate: %v", err)
 			return nil, false
 		}
@@ -358,6 +395,20 @@ func run(c *core.Ctx) {
 			for is := range initiatorSets {
 				jobs = append(jobs, job{s, is, 0, c.Q(3000, 20000), 0})             // exhaustive without retries
 				jobs = append(jobs, job{s, is, 1, c.Q(400, 12000), c.Q(300, 6000)}) // with retries: budgeted DFS + random
+			}
+		}
+	}
+	// with a prior setup and traffic: the side that lost its keys initiates
+	for _, relay := range []bool{false, true} {
+		for _, swapped := range []bool{false, true} {
+			for prior := 1; prior <= 2; prior++ {
+				s := setup{relay: relay, swapped: swapped, ids: ids, prior: prior}
+				// only a router without keys starts a setup (router/tun.go); the side that kept its keys never does
+				loserFirst := map[int][]int{1: {0}, 2: {1}}[prior]
+				for _, is := range loserFirst {
+					jobs = append(jobs, job{s, is, 0, c.Q(300, 5000), 0})
+					jobs = append(jobs, job{s, is, 1, c.Q(100, 3000), c.Q(60, 1500)})
+				}
 			}
 		}
 	}
